@@ -230,6 +230,10 @@ impl<'a> Builder<'a> {
         boxed(s.add_operator(|p| Probe::new(p, id)))
     }
 
+    pub fn probe_pub<T: Lin + Send + 'static>(&mut self, s: DS<T>, path: &[usize], out: usize, pos: &str) -> DS<T> {
+        self.probe(s, path, out, pos)
+    }
+
     pub fn build(&mut self) {
         let steps = self.sc.steps.clone();
         let mut streams: Vec<Option<DS<E>>> = Vec::new();
